@@ -237,3 +237,38 @@ pub proof fn theorem_c12_frame(e0: Env, e3: Env, k: Seq<char>)
     lemma_apply_args_frame(e1, cfg_args(default_cfg_path()), k);
     lemma_apply_args_frame(e2, process_args(), k);
 }
+
+// ----- the readers -----
+pub open spec fn env_or(e: Env, k: Seq<char>, d: Seq<char>) -> Seq<char> { if e.contains_key(k) { e[k] } else { d } }
+// a numeric setting: the variable's text when it parses as T, the built-in number otherwise
+pub open spec fn int_setting<T: RwsFromStr>(e: Env, k: Seq<char>, d: T) -> T {
+    if e.contains_key(k) && T::parses(e[k]) { T::val(e[k]) } else { d }
+}
+
+// ----- start-up as a whole (Server::setup): what the listener and the pool are made from -----
+pub open spec fn settings_effective(e0: Env, e: Env) -> bool {
+    forall|i: int| 0 <= i < 11 ==> e.contains_key(#[trigger] s_var(i)) && e[s_var(i)] == effective(e0, i)
+}
+// the two calls commute: bootstrap() before set_default_values() gives the same settings
+pub open spec fn started_rev(e0: Env, e3: Env) -> bool {
+    defaults_applied(apply_args(apply_args(e0, cfg_args(default_cfg_path())), process_args()), e3)
+}
+pub proof fn theorem_c12_all(e0: Env, e3: Env)
+    requires started(e0, e3) || started_rev(e0, e3),
+    ensures settings_effective(e0, e3),
+{
+    assert forall|i: int| 0 <= i < 11 implies e3.contains_key(#[trigger] s_var(i)) && e3[s_var(i)] == effective(e0, i) by {
+        if started(e0, e3) { theorem_c12(e0, e3, i); } else {
+            let e1 = apply_args(e0, cfg_args(default_cfg_path()));
+            lemma_apply_args(e0, cfg_args(default_cfg_path()), i);
+            lemma_apply_args(e1, process_args(), i);
+        }
+    }
+}
+pub open spec fn eff_ip(e0: Env) -> Seq<char> { effective(e0, 1) }
+pub open spec fn eff_port(e0: Env) -> i32 { if <i32 as RwsFromStr>::parses(effective(e0, 0)) { <i32 as RwsFromStr>::val(effective(e0, 0)) } else { 7878 } }
+pub open spec fn eff_threads(e0: Env) -> i32 { if <i32 as RwsFromStr>::parses(effective(e0, 2)) { <i32 as RwsFromStr>::val(effective(e0, 2)) } else { 200 } }
+// host:port, an IPv6 literal in brackets
+pub open spec fn bind_text(ip: Seq<char>, port: i32) -> Seq<char> {
+    (if has_sub(ip, seq![':']) { seq!['['] + ip + seq![']'] } else { ip }) + seq![':'] + dec_i(port as int)
+}
